@@ -92,6 +92,14 @@ def _read_events(path):
     return evs
 
 
+def _twins(n: int, cross: list) -> dict:
+    """Two files outside the cross-file groups hold several findings of one rule on ONE line with the SAME message (they
+    differ in the column only): a run reports every one of them, in either mode (Parallel.tla: the result is the
+    multiset union of the per-file results, not a set keyed by rule/file/line/message)."""
+    free = [f for f in range(1, n + 1) if not any(f in g for g in cross)]
+    return dict(zip(free[:2], ("pytwins", "tstwins")))
+
+
 def job_api(job: dict) -> dict:
     """Sequential vs parallel through the orchestrator API (controlled or real pool)."""
     drive.preload()
@@ -102,7 +110,7 @@ def job_api(job: dict) -> dict:
 
     root = Path(job["root"])
     root.mkdir(parents=True, exist_ok=True)
-    files = projects.build(job["n"], job["cross"], job.get("layout", "flat"))
+    files = projects.build(job["n"], job["cross"], job.get("layout", "flat"), force=_twins(job["n"], job["cross"]))
     drive.write_tree(root, dict(files))
     (root / ".thailint.yaml").write_text(C07_CONFIG)
     os.chdir(root)
@@ -139,7 +147,7 @@ def job_cli(job: dict) -> dict:
     """`thailint <cmd> [--parallel] <targets>` as real subprocesses."""
     root = Path(job["root"])
     root.mkdir(parents=True, exist_ok=True)
-    files = projects.build(job["n"], job["cross"], job.get("layout", "flat"))
+    files = projects.build(job["n"], job["cross"], job.get("layout", "flat"), force=_twins(job["n"], job["cross"]))
     drive.write_tree(root, dict(files))
     extra = []
     if job.get("explicit_config"):
